@@ -6,7 +6,8 @@ From Verif Require Import Base.Prelude Base.StrOrd Base.Graph Model.MapSpec Mode
   Model.PrepareSteps Model.Validate Model.ValidateSpec.
 From Verif Require Model.Pipe.
 From Verif Require Import Model.Mutate.
-From Verif Require Import Corr.Run_C12 Proofs.PrepareFacts Proofs.ValidateFacts Proofs.ValidateDecide Proofs.MutateFacts.
+From Verif Require Import Corr.Run_C12 Proofs.PrepareFacts Proofs.ValidateFacts Proofs.ValidateDecide Proofs.MutateFacts
+  Proofs.ValidateClasses Proofs.ValidateBridge.
 
 (* ---------- construction ---------- *)
 (* what construction accepts is free of every construction-time fault class of the property *)
@@ -24,21 +25,83 @@ Proof. exact validate_construct_complete_per_fault. Qed.
 Print Assumptions C12_validate_construct_complete_per_fault.
 
 (* ---------- map ---------- *)
-(* what prepare_run accepts is free of every map-time fault class (zipped dimensions: for MapSpecs that do not
-   repeat an array name or an index inside one array, `plain_specs`) *)
+(* what prepare_run accepts is free of every map-time fault class *)
 Theorem C12_validate_map_sound : forall q,
   validate_map q = Ok tt ->
   ~ F_executor q /\ ~ F_missing_input q /\ ~ F_surplus_input q /\ ~ F_axes (q_funcs q) /\ ~ F_rank q
-  /\ (plain_specs (q_funcs q) -> ~ F_zip q) /\ ~ F_storage q.
+  /\ ~ F_zip q /\ ~ F_storage q.
 Proof. exact validate_map_sound. Qed.
 Print Assumptions C12_validate_map_sound.
 
 Theorem C12_validate_map_complete_per_fault : forall q,
   (F_executor q \/ F_missing_input q \/ F_surplus_input q \/ F_axes (q_funcs q) \/ F_rank q \/ F_storage q
-   \/ (plain_specs (q_funcs q) /\ F_zip q)) ->
+   \/ F_zip q) ->
   exists e, validate_map q = Err e.
 Proof. exact validate_map_complete_per_fault. Qed.
 Print Assumptions C12_validate_map_complete_per_fault.
+
+(* ---------- the bridge to C02 / C09 / C10 / C11 / C13 / C18 ---------- *)
+(* What the constructor's own validation accepts satisfies `Pipe.wf_pipelineb`, the precondition of the theorems
+   about Pipeline.run.  `pythonic`: what Python itself guarantees and pipefunc does not validate (an output name
+   exists, the signature has distinct parameter names, dict keys are distinct) + the harness convention that
+   __name__ identifies a function. *)
+Theorem C12_construct_ok_wf_pipeline : forall fs,
+  pythonic fs -> validate_construct fs = Ok tt -> Pipe.wf_pipelineb (lift fs) = true.
+Proof. exact construct_ok_wf_pipeline. Qed.
+Print Assumptions C12_construct_ok_wf_pipeline.
+
+(* The converse does not hold: Pipeline.add checks the defaults incrementally, so a default conflict on a name that
+   only a LATER function turns into an output is refused although the complete pipeline is well-formed
+   (h(a, b="1") -> c, k(c, b="2") -> d, mk() -> b: accepted as [mk; h; k], refused as [h; k; mk]). *)
+Example C12_bridge_converse_fails :
+  let F n o ps d := {| rname := s n; routs := [s o]; rparams := ps; rsigd := d; rdefs := []; rbound := [];
+                       rspec := None; rint := [] |} in
+  let h := F "h"%string "c"%string [s "a"; s "b"] [(s "b", s "1")] in
+  let k := F "k"%string "d"%string [s "c"; s "b"] [(s "b", s "2")] in
+  let mk := F "mk"%string "b"%string [] [] in
+  Pipe.wf_pipelineb (lift [h; k; mk]) = true /\ validate_construct [h; k; mk] = Err ValueError
+  /\ validate_construct [mk; h; k] = Ok tt /\ pythonic [h; k; mk].
+Proof.
+  cbv zeta. split; [vm_compute; reflexivity|]. split; [vm_compute; reflexivity|]. split; [vm_compute; reflexivity|].
+  split.
+  - intros g Hg. cbn in Hg.
+    destruct Hg as [<-|[<-|[<-|[]]]]; cbn; (split; [discriminate|]); split; repeat constructor; cbn; intuition discriminate.
+  - cbn. repeat constructor; cbn; intuition discriminate.
+Qed.
+
+(* ---------- exception classes ---------- *)
+(* construction: ValueError for every fault class; a cycle - checked last in Pipeline.add - is
+   networkx.NetworkXUnfeasible (OtherError); the only other class is the IndexError of a MapSpec without outputs *)
+Theorem C12_construct_error_classes : forall fs e,
+  validate_construct fs = Err e ->
+  e = ValueError \/ e = OtherError \/ (e = IndexError /\ exists f m, In f fs /\ rspec f = Some m /\ outs m = []).
+Proof. exact validate_construct_class. Qed.
+Print Assumptions C12_construct_error_classes.
+
+Theorem C12_add_error_classes : forall fs f e,
+  add_checks fs f = Err e ->
+  e = ValueError
+  \/ (e = OtherError /\ unique_new fs f = Ok tt /\ consistent_defaults (fs ++ [f]) = Ok tt
+      /\ mapspec_outputs_match (fs ++ [f]) = Ok tt /\ validate_consistent_axes (specs_of (fs ++ [f])) = Ok tt
+      /\ acyclicb (fgraph (fs ++ [f])) = false).
+Proof. exact add_checks_class. Qed.
+Print Assumptions C12_add_error_classes.
+
+Theorem C12_func_error_classes : forall f e,
+  validate_func f = Err e -> e = ValueError \/ (e = IndexError /\ exists m, rspec f = Some m /\ outs m = []).
+Proof. exact validate_func_class. Qed.
+Print Assumptions C12_func_error_classes.
+
+(* map: the fault classes checked before RunInfo.create raise ValueError, each when everything the code checks
+   before it has passed (executor first; inputs after the graph checks; axes; storage names) *)
+Theorem C12_map_head_error_classes : forall q,
+  (F_executor q -> validate_map q = Err ValueError)
+  /\ (c_exec q = Ok tt -> graph_checks (q_funcs q) = Ok tt -> (F_missing_input q \/ F_surplus_input q) ->
+      validate_map q = Err ValueError)
+  /\ (c_exec q = Ok tt -> c_inputs q = Ok tt -> F_axes (q_funcs q) -> validate_map q = Err ValueError)
+  /\ (c_exec q = Ok tt -> c_inputs q = Ok tt -> c_axes q = Ok tt -> F_storage q -> validate_map q = Err ValueError).
+Proof. exact validate_map_head_classes. Qed.
+Print Assumptions C12_map_head_error_classes.
 
 (* ---------- nothing runs, nothing is written ---------- *)
 (* for EVERY step list: if every effect is preceded by all checks, a rejected request has performed no effect *)
@@ -82,7 +145,7 @@ Proof. exact model_meets_spec_construct. Qed.
 Print Assumptions C12_model_meets_spec_construct.
 
 Theorem C12_model_meets_spec_map : forall q,
-  plain_specs (q_funcs q) -> spec_ok (CMap q false) (run (CMap q false)) = true.
+  spec_ok (CMap q false) (run (CMap q false)) = true.
 Proof. exact model_meets_spec_map. Qed.
 Print Assumptions C12_model_meets_spec_map.
 
@@ -150,29 +213,33 @@ Proof.
   repeat split; try (vm_compute; reflexivity); eexists; split; vm_compute; reflexivity.
 Qed.
 
-(* ---------- pipeline(output, **kwargs): the property is FALSE of the code (known findings) ---------- *)
-(* Full statement (not provable):
-     forall p o kw, spec_ok (CCall p o kw false) (run (CCall p o kw false)) = true
-   i.e. a call with a missing or a surplus keyword is rejected before any user function is invoked.
-   Pipeline.run (model: Pipe.run, tied to the code by C02's and this check's correspondence) discovers a missing
-   argument lazily and an unused keyword only after the evaluation; witnesses (replayed on the real code on every
-   run, reported as KNOWN-FINDING run-missing-input-after-calls / run-surplus-input-after-calls): *)
-Theorem C12_run_rejects_before_calls_refuted :
-  (exists p o kw, call_in_scope p o kw = true /\ call_missing p o kw = true
-                  /\ spec_ok (CCall p o kw false) (run (CCall p o kw false)) = false)
-  /\ (exists p o kw, call_in_scope p o kw = true /\ call_surplus p o kw = true
-                     /\ spec_ok (CCall p o kw false) (run (CCall p o kw false)) = false).
-Proof.
-  split.
-  - exists [Pipe.mkf (s "f0") [s "o0"] [(s "z", s "z"); (s "y", s "y")] [] [(s "y", s "B0_y")] false;
-            Pipe.mkf (s "f1") [s "o1"] [(s "o0", s "o0"); (s "y", s "y")] [] [] false],
-           (s "o1"), [(s "z", s "v_z")].
-    repeat split; vm_compute; reflexivity.
-  - exists [Pipe.mkf (s "f2") [s "o2"] [(s "x", s "x"); (s "o0", s "o0")] [] [(s "o0", s "B2_o0")] false],
-           (s "o2"), [(s "x", s "v_x"); (s "zz", s "v_zz")].
-    repeat split; vm_compute; reflexivity.
-Qed.
-Print Assumptions C12_run_rejects_before_calls_refuted.
+(* ---------- pipeline(output, **kwargs) ---------- *)
+(* Since the repair "validate the keyword arguments of Pipeline.run before executing anything" (model:
+   Pipe.run_checked = Pipe.run_precheck, then the evaluation Pipe.run) a call with a missing or a surplus keyword
+   is rejected with an EMPTY call log; before it the statement was refuted (former known findings
+   run-missing-input-after-calls / run-surplus-input-after-calls). *)
+Theorem C12_run_rejects_before_calls : forall p o kw,
+  spec_ok (CCall p o kw false) (run (CCall p o kw false)) = true.
+Proof. exact model_meets_spec_call. Qed.
+Print Assumptions C12_run_rejects_before_calls.
+
+(* the order inside Pipeline.run (model list; the list regenerated from the source: gen/Check_PrepareSteps.v):
+   every check precedes the first invocation of user code *)
+Theorem C12_run_entry_ordered :
+  no_effect_before_checks run_entry_steps = true /\ spec_ok CRunOrder (run CRunOrder) = true.
+Proof. split; [vm_compute; reflexivity|exact model_meets_spec_run_order]. Qed.
+Print Assumptions C12_run_entry_ordered.
+
+(* the two former witnesses *)
+Example C12_example_run_rejected_up_front :
+  Pipe.run_checked Pipe.Sym.body Pipe.Sym.pick
+    [Pipe.mkf (s "f0") [s "o0"] [(s "z", s "z"); (s "y", s "y")] [] [(s "y", s "B0_y")] false;
+     Pipe.mkf (s "f1") [s "o1"] [(s "o0", s "o0"); (s "y", s "y")] [] [] false]
+    (s "o1") [(s "z", s "v_z")] false = (Err ValueError, [])
+  /\ Pipe.run_checked Pipe.Sym.body Pipe.Sym.pick
+    [Pipe.mkf (s "f2") [s "o2"] [(s "x", s "x"); (s "o0", s "o0")] [] [(s "o0", s "B2_o0")] false]
+    (s "o2") [(s "x", s "v_x"); (s "zz", s "v_zz")] false = (Err UnusedParametersError, []).
+Proof. split; vm_compute; reflexivity. Qed.
 
 (* ---------- non-vacuity ---------- *)
 Module Ex.
@@ -194,12 +261,8 @@ Module Ex.
 End Ex.
 
 Example C12_example_accepted :
-  validate_construct [Ex.f; Ex.g] = Ok tt /\ validate_map Ex.q = Ok tt /\ plain_specs [Ex.f; Ex.g].
-Proof.
-  split; [vm_compute; reflexivity|]. split; [vm_compute; reflexivity|].
-  intros f m [<-|[<-|[]]] Hs; injection Hs as <-; (split; [vm_compute; reflexivity|]);
-    (split; [vm_compute; reflexivity|]); split; repeat constructor; cbn; intuition discriminate.
-Qed.
+  validate_construct [Ex.f; Ex.g] = Ok tt /\ validate_map Ex.q = Ok tt.
+Proof. split; vm_compute; reflexivity. Qed.
 
 (* instances of the hypotheses of the model_meets_spec theorems, and a rejected request of the map model *)
 Example C12_example_hypotheses :
